@@ -55,3 +55,24 @@ for rd in sorted(glob.glob(os.path.join(V, 'harmless', '*'))):
         inc = [x[0] for x in res if x[1] == 'INCONCLUSIVE']
         vio = [x[0] for x in res if x[1] == 'VIOLATION']
         print('| %s/%s | %s | %d OK%s%s |' % (os.path.basename(rd), h, idx.get(h, ''), ok, (', undecided: ' + ' '.join(inc)) if inc else '', (', **VIOLATION: ' + ' '.join(vio) + '**') if vio else ''))
+
+# rounds whose full runs were not repeated with the final machinery: the screen (tools/screen.sh: extract + Verus on every unit that
+# reads a file the patch touches; a unit that verifies means that every check reading only that text is OK)
+sp = os.path.join(V, 'harmless', 'screen_rounds123.txt')
+if os.path.exists(sp):
+    print()
+    print('| harmless edit (rounds 1-3, cargo fmt: screen with the final machinery) | unit | Verus on the merged text |')
+    print('|---|---|---|')
+    for l in open(sp):
+        mo = re.match(r'^(\S+) (\w+) :: (.*?) ::(.*)$', l.strip())
+        if not mo:
+            continue
+        res = mo.group(3)
+        if res.startswith('verification results::'):
+            res = res.replace('verification results::', '').strip()
+            if ', 0 errors' not in res:
+                res += ' - undecided after classification (exit 2), no VIOLATION'
+        else:
+            res = 'does not compile after the merge - undecided (exit 2)'
+        print('| %s | %s | %s |' % (mo.group(1).replace('_', '/', 1), mo.group(2), res))
+
